@@ -139,6 +139,15 @@ inline bool operator>=(const Tracked &a, const Tracked &b)
 {
   return a.read() >= b.read();
 }
+// Over-aligned instrumented payload: the same registry, alignof and sizeof N (32, 64: more than
+// malloc / operator new guarantee).  Every payload operation is Tracked's.
+template <int N>
+struct alignas(N) TrackedA : Tracked
+{
+  TrackedA() {}
+  TrackedA(int v) : Tracked(v) {}
+};
+
 // converting comparisons Optional<Tracked> vs Optional<int>
 inline bool operator==(const Tracked &a, int b) { return a.read() == b; }
 inline bool operator!=(const Tracked &a, int b) { return a.read() != b; }
